@@ -403,6 +403,9 @@ class CInterp:
         if k == "CallExpr":
             name = c_callee(n)
             args = [self.expr(a, env) for a in n["inner"][1:]]
+            at_zero = getattr(self, "zero_values", None)
+            if at_zero and name in at_zero and args and all(getattr(a, "is_number", False) for a in args[:1]) and args[0] == 0:
+                return sp.sympify(at_zero[name])
             if name in self.opaque:
                 return sp.Function(name)(*[a for a in args])
             has_body = name in self.functions and any(
@@ -425,6 +428,12 @@ class CInterp:
         key2 = str(v)
         if key2 in self.facts:
             return self.facts[key2]
+        if getattr(self, "numeric_decide", False):
+            # comparisons between numbers (a symbolic evaluation at a numeric point, e.g. q = 0) decide themselves
+            fn = getattr(getattr(v, "func", None), "__name__", "")
+            if fn in ("c_lt", "c_gt", "c_le", "c_ge", "c_eq", "c_ne") and all(getattr(a, "is_number", False) and a.is_real for a in v.args):
+                a, b = (float(x) for x in v.args)
+                return {"c_lt": a < b, "c_gt": a > b, "c_le": a <= b, "c_ge": a >= b, "c_eq": a == b, "c_ne": a != b}[fn]
         return None
 
     def assign(self, lhs, v, env):
@@ -599,7 +608,11 @@ class CInterp:
                     assigned.add(t["referencedDecl"]["name"])
                 else:
                     return False          # stores through pointers/arrays inside the loop: not a plain summation
-            if k in ("ForStmt", "WhileStmt", "DoStmt", "IfStmt", "ReturnStmt", "BreakStmt", "ContinueStmt"):
+            if k in ("WhileStmt", "ReturnStmt", "BreakStmt", "ContinueStmt"):
+                return False
+            if k == "DoStmt" and not getattr(self, "nested_sums", False):
+                return False
+            if k in ("ForStmt", "IfStmt") and not getattr(self, "nested_sums", False):
                 return False
             stack.extend(n.get("inner", []) or [])
         accs = sorted(assigned - declared)
@@ -627,7 +640,22 @@ class CInterp:
                 elif getattr(getattr(dep, "func", None), "__name__", "") == "idx" and dep.args[1] == J:
                     total += indep * sp.Symbol("sum_%s_%s" % (dep.args[0], bound), real=True)
                 else:
-                    return False
+                    # a factor that depends on the index only through constant tables (weights, nodes) and numbers is a
+                    # number: fold the sum over the literal table entries
+                    tables = getattr(self, "tables", None)
+                    if not tables or not bound.isdigit() or {str(x) for x in dep.free_symbols - {J}} - set(tables):
+                        return False
+                    lookups = [t for t in sp.preorder_traversal(dep) if getattr(getattr(t, "func", None), "__name__", "") == "idx"]
+                    if any(str(t.args[0]) not in tables or t.args[1] != J for t in lookups):
+                        return False
+                    acc = 0.0
+                    try:
+                        for jv in range(int(bound)):
+                            sub_ = {t: tables[str(t.args[0])][jv] for t in set(lookups)}
+                            acc += float(dep.subs(sub_).subs(J, jv).evalf())
+                    except Exception:
+                        return False
+                    total += indep * num(round(acc, 12))
             env[a] = (env[a] if a in env else sym(a)) + total
         return True
 
